@@ -26,6 +26,8 @@ pub struct RefState {
     pub seen_pool_keys: BTreeSet<PoolKey>,
     /// hashes of every accepted transaction of kind Stake in this history (bookkeeping for alphabets only)
     pub stake_txs_seen: BTreeSet<TxHash>,
+    /// the last few coins this history has spent, with their data (bookkeeping for alphabets only: second spends of them)
+    pub spent_recently: Vec<(CoinID, CoinDataHeight)>,
 }
 
 #[derive(Clone, Debug, PartialEq, Eq)]
@@ -355,9 +357,13 @@ impl RefState {
         }
         for tx in txs {
             for i in &tx.inputs {
-                next.coins.remove(i);
+                if let Some(c) = next.coins.remove(i) {
+                    next.spent_recently.push((*i, c));
+                }
             }
         }
+        let excess = next.spent_recently.len().saturating_sub(3);
+        next.spent_recently.drain(..excess);
         next.dosc_speed = max_speed;
         for (k, v) in new_stakes {
             next.stakes.insert(k, v);
